@@ -40,19 +40,30 @@ structure SstCfg where
   /-- `table.loadBlock` verifies the block checksum before the decoded block is published to the
       block cache (false = the block is cached first and verified afterwards) -/
   verifyBeforeCache : Bool
+  /-- `table.loadBlock` bounds the checksum-length field of the block trailer by the bytes that
+      precede it (`chkLen > readPos`; false = by the whole block, `chkLen > len(b.data)`) -/
+  chkLenGuardReadPos : Bool
+  /-- every `loadBlock` that misses the block cache verifies the block checksum: the call is
+      unconditional and `block.verifyCheckSum` is nothing but the checksum comparison
+      (false = verification is skipped for blocks remembered as already verified) -/
+  verifyEveryLoad : Bool
   deriving DecidableEq, Repr
 
 def SstCfg.good : SstCfg :=
   { splitOp := .gt, seekFallsThrough := true, tblSeekOp := .gt, blkFwdOp := .ge, blkRevOp := .gt,
-    searchVsOp := .lt, bloomSameProjection := true, verifyBeforeCache := true }
+    searchVsOp := .lt, bloomSameProjection := true, verifyBeforeCache := true,
+    chkLenGuardReadPos := true, verifyEveryLoad := true }
 
-def SstCfg.Good (c : SstCfg) : Prop := c = SstCfg.good
-instance SstCfg.decGood (c : SstCfg) : Decidable c.Good := by unfold SstCfg.Good; exact inferInstance
-
-/-- everything but the forward-seek continuation is as intended -/
-def SstCfg.GoodButSeek (c : SstCfg) : Prop := { c with seekFallsThrough := true } = SstCfg.good
+/-- the decisions the lookup/seek/iteration theorems depend on, except the forward-seek
+continuation (block-cache order and trailer guard are separate concerns) -/
+def SstCfg.GoodButSeek (c : SstCfg) : Prop :=
+  c.splitOp = .gt ∧ c.tblSeekOp = .gt ∧ c.blkFwdOp = .ge ∧ c.blkRevOp = .gt ∧ c.searchVsOp = .lt ∧
+  c.bloomSameProjection = true
 instance SstCfg.decGoodButSeek (c : SstCfg) : Decidable c.GoodButSeek := by
   unfold SstCfg.GoodButSeek; exact inferInstance
+
+def SstCfg.Good (c : SstCfg) : Prop := c.GoodButSeek ∧ c.seekFallsThrough = true
+instance SstCfg.decGood (c : SstCfg) : Decidable c.Good := by unfold SstCfg.Good; exact inferInstance
 
 /-- the key order of the table (`utils.CompareKeys`; its own facts belong to C07) -/
 def klt (a b : Bytes) : Bool := ckLt IdxCfg.good a b
@@ -184,6 +195,32 @@ def search (c : SstCfg) (hash : Bytes → Nat) (t : Table) (key : Bytes) : Optio
     | [] => none
     | e :: _ => if sameKey key e.1 && c.searchVsOp.nat 0 (verOf e.1) then some e.2 else none
 
+/-! ### block trailer (`table.loadBlock`): `… | entry offsets | count(4) | checksum(8) | chkLen(4)` -/
+
+/-- size in bytes of a finished block: entries, entry-offset list, count, checksum, checksum length -/
+def blockBytes (b : Block) : Nat :=
+  match b with
+  | [] => 0
+  | e :: rest => firstSize e + (rest.map (inBlockSize e.1)).sum + 4 * b.length + 16
+
+inductive TrailerStep where
+  | error                 -- "invalid checksum length"
+  | panic                 -- `readPos -= chkLen` below zero: slice bounds out of range
+  | cont (readPos : Nat)  -- checksum bytes start at `readPos`
+  deriving DecidableEq, Repr
+
+/-- first step of the trailer decoding for a block of `len` bytes whose last four bytes decode
+(big-endian) to `chkLen` -/
+def chkLenStep (c : SstCfg) (len chkLen : Nat) : TrailerStep :=
+  let readPos := len - 4
+  let bound := if c.chkLenGuardReadPos then readPos else len
+  if chkLen > bound then .error
+  else if chkLen > readPos then .panic
+  else .cont (readPos - chkLen)
+
+/-- the length field (written as 8) after one bit flip: bit `bit` of its byte `i` (0 = most significant) -/
+def flippedChkLen (i bit : Nat) : Nat := Nat.xor 8 (2 ^ bit * 256 ^ (3 - i))
+
 /-! ### block loads through the block cache (`table.loadBlock`) -/
 
 inductive LoadRes where
@@ -208,6 +245,27 @@ def loadBlock (c : SstCfg) (disk : Nat → Block × Bool) (cache : List (Nat × 
 def loadSeq (c : SstCfg) (disk : Nat → Block × Bool) : List (Nat × Block) → List Nat → List LoadRes
   | _, [] => []
   | cache, i :: is => (loadBlock c disk cache i).1 :: loadSeq c disk (loadBlock c disk cache i).2 is
+
+/-! ### loads that miss the cache while the file may change (level ≥ 2 / cache disabled / evicted) -/
+
+/-- the checksum step of a load that missed the cache; `verified` = blocks this table handle
+remembers as verified (only consulted when verification is not unconditional) -/
+def verifyStep (c : SstCfg) (verified : List Nat) (idx : Nat) (crcOk : Bool) : Bool × List Nat :=
+  if c.verifyEveryLoad then (crcOk, verified)
+  else if verified.contains idx then (true, verified)
+  else (crcOk, if crcOk then idx :: verified else verified)
+
+/-- `loadBlock(idx)` on a cache miss: decode what is in the file *now*, verify, return -/
+def loadUncached (c : SstCfg) (disk : Nat → Block × Bool) (verified : List Nat) (idx : Nat) :
+    LoadRes × List Nat :=
+  ((if (verifyStep c verified idx (disk idx).2).1 then .ok (disk idx).1 else .err),
+   (verifyStep c verified idx (disk idx).2).2)
+
+/-- a sequence of uncached loads; each step carries the file content at that moment -/
+def loadSeqLive (c : SstCfg) : List Nat → List ((Nat → Block × Bool) × Nat) → List LoadRes
+  | _, [] => []
+  | verified, (disk, i) :: rest =>
+    (loadUncached c disk verified i).1 :: loadSeqLive c (loadUncached c disk verified i).2 rest
 
 /-- full iteration -/
 def scan (t : Table) (asc : Bool) : List SEntry :=
